@@ -1,5 +1,6 @@
 import Driver.Util
 import Sqfs.Model.FailStop
+import Sqfs.Model.FailStopBlockProc
 import Sqfs.Spec.FailStop
 namespace Driver.C13
 open Sqfs.FailStop
@@ -62,6 +63,58 @@ def showResult (r : Result) : String :=
 
 def bit (s : String) : Option Bool := if s = "1" then some true else if s = "0" then some false else none
 
+/-! ### second layer: block processor sessions -/
+open Sqfs.FailStop.BP in
+def primName : BP.Prim → String
+  | .inodeAlloc => "inodeAlloc" | .allocBlock => "allocBlock" | .allocFragCopy => "allocFragCopy"
+  | .submit => "submit" | .poolDequeue => "poolDequeue" | .writeBlock => "writeBlock"
+  | .growSparseBlock => "growSparseBlock" | .growDataBlock => "growDataBlock" | .growSparseTail => "growSparseTail"
+  | .fragTableSet => "fragTableSet" | .fragLookup => "fragLookup" | .fragTableAppend => "fragTableAppend"
+  | .allocChunk => "allocChunk" | .htInsert => "htInsert"
+
+/-- `B<i><d>`, `A<n>:<z><d>` (z: all zero, d: duplicate of an earlier fragment), `E`, `S`, `F` -/
+def parseApi (tok : String) : Option BP.Api :=
+  match tok.toList with
+  | ['B', i, d] => some (.beginFile (i == '1') (d == '1'))
+  | ['E'] => some .endFile
+  | ['S'] => some .sync
+  | ['F'] => some .finish
+  | 'A' :: rest =>
+    match (String.ofList rest).splitOn ":" with
+    | [n, fl] => match n.toNat?, fl.toList with
+      | some n, [z, d] => some (.append n (z == '1') (d == '1'))
+      | _, _ => none
+    | _ => none
+  | _ => none
+
+def BPFUEL : Nat := 100000
+
+/-- run calls fault-free up to call `j`, then call `j` with a fault at the first primitive of one of `kinds`;
+    answers the results of calls 0..j and the primitive kinds call `j` executes -/
+def bpFaultAt (v : Variant) (calls : List BP.Api) (j : Nat) (kinds : List String) : String :=
+  let rec go (i : Nat) (cs : List BP.Api) (p : BP.Proc) (acc : List String) : String :=
+    match cs with
+    | [] => "short " ++ " ".intercalate acc
+    | a :: rest =>
+      if i < j then
+        match BP.runCall v BPFUEL a p [] with
+        | (r, _, p') => if r.ok then go (i + 1) rest p' (acc ++ ["ok"]) else "early-error " ++ " ".intercalate (acc ++ ["err"])
+      else
+        match BP.runCall v BPFUEL a p [] with
+        | (r0, _, _) =>
+          let names := r0.prims.map primName
+          let idx := names.findIdx (fun n => kinds.contains n)
+          if idx ≥ names.length then "nokind prims=" ++ joinOr names
+          else
+            match BP.runCall v BPFUEL a p (List.replicate idx false ++ [true]) with
+            | (r, _, _) =>
+              s!"{" ".intercalate (acc ++ [if r.ok then "ok" else "err"])} faulted={if r.faulted then 1 else 0} damaged={if r.damaged then 1 else 0} err={match r.err with | some .fault => "fault" | some .fuel => "fuel" | some .sequence => "sequence" | some .internal => "internal" | none => "-"} prims={joinOr names}"
+  go 0 calls {} []
+
+def bpFaultFree (v : Variant) (calls : List BP.Api) : String :=
+  let rs := BP.session v BPFUEL calls {} []
+  " ".intercalate (rs.map fun r => (if r.ok then "ok" else "err") ++ "/" ++ toString r.prims.length)
+
 def step (line : String) : String :=
   match words line with
   | ["run", v, tool, flags, nf, ns, faults] =>
@@ -70,6 +123,14 @@ def step (line : String) : String :=
       match parseFaults c faults with
       | some ps => showResult (run v c (scriptOf ps))
       | none => "bad-op"
+    | _, _ => "bad-op"
+  | ["bp", v, j, kinds, calls] =>
+    match parseVariant v, j.toNat?, (calls.splitOn ",").mapM parseApi with
+    | some v, some j, some cs => bpFaultAt v cs j (kinds.splitOn "|")
+    | _, _, _ => "bad-op"
+  | ["bpfree", v, calls] =>
+    match parseVariant v, (calls.splitOn ",").mapM parseApi with
+    | some v, some cs => bpFaultFree v cs
     | _, _ => "bad-op"
   | ["sites", tool, flags, nf, ns] =>
     match parseCfg tool flags nf ns with
